@@ -536,8 +536,8 @@ MUTANTS = [
     {'name': 'drop-edges-iterates-live-view', 'file': MX, 'rule': 'R2',
      'find': '        for e in list(graph.edges(data=True)):', 'replace': '        for e in graph.edges(data=True):'},
     {'name': 'shortest-path-on-live-graph', 'file': NX, 'rule': 'R3',
-     'find': '        # extract a graph\n        graph = self.storage.extract_graph(self.graph_id)\n        if graph is None:\n            raise PropertyGraphQueryException(graph_id=self.graph_id,\n                                              msg="Unable to find graph")\n        # if relationship specified',
-     'replace': '        # extract a graph\n        graph = self.storage.get_graph(self.graph_id)\n        if graph is None:\n            raise PropertyGraphQueryException(graph_id=self.graph_id,\n                                              msg="Unable to find graph")\n        # if relationship specified'},
+     'find': '        # extract a graph\n        graph = self.storage.extract_graph(self.graph_id)\n        if graph is None:\n            raise PropertyGraphQueryException(graph_id=self.graph_id, node_id=node_a,\n                                              msg="Unable to find graph")\n        # if relationship specified',
+     'replace': '        # extract a graph\n        graph = self.storage.get_graph(self.graph_id)\n        if graph is None:\n            raise PropertyGraphQueryException(graph_id=self.graph_id, node_id=node_a,\n                                              msg="Unable to find graph")\n        # if relationship specified'},
     {'name': 'shortest-path-outside-try', 'file': NX, 'rule': 'R4',
      'find': '        try:\n            sp = nx.shortest_path(graph, source=real_node_a, target=real_node_z)\n        except nx.exception.NetworkXNoPath:\n            return list()\n',
      'replace': '        sp = nx.shortest_path(graph, source=real_node_a, target=real_node_z)\n'},
